@@ -150,7 +150,7 @@ def sha_dec(f):
 # ------------------------------------------------------------------------------ _fetch_remote
 
 contract(FETCH, params=dict(remote=REMOTE_T, dirname=Opt(Str), n_retries=Int, delay=Real, validate_checksum=Bool), returns=Str,
-         no_rt=True, no_frame=True, raises_only=['URLError', 'TimeoutError', 'Exception'], inline=True)
+         no_rt=True, no_frame=True, raises_only=['Exception'], inline=True)
 
 
 def target(remote, dirname):
@@ -166,6 +166,17 @@ def fetch_pre(remote, dirname, n_retries, delay, validate_checksum):
 def fetch_checksum_mismatch(remote, dirname, n_retries, delay, validate_checksum):
     """a payload whose SHA-256 differs from the pinned one is refused (the condition is on the state *after* the download)"""
     return validate_checksum and sha(fs_content(target(remote, dirname))) != remote.checksum
+
+
+@raises(FETCH, 'URLError', only_if=True)
+def fetch_urlerror_after_budget(remote, dirname, n_retries, delay, validate_checksum):
+    """a transient download error is absorbed n_retries times; it propagates only from the (n_retries+1)-th failed attempt"""
+    return net_calls() - net_calls0() == n_retries + 1
+
+
+@raises(FETCH, 'TimeoutError', only_if=True)
+def fetch_timeout_after_budget(remote, dirname, n_retries, delay, validate_checksum):
+    return net_calls() - net_calls0() == n_retries + 1
 
 
 @invariant(FETCH, loop=1)
